@@ -1,7 +1,146 @@
-//! (stub - filled in by the corresponding check)
+//! spec -> impl replay of non-maximum suppression (spec/geom/GenN.tla) - property C14.
+//!
+//! A case is `{dets: [{box: {x, y, w, h, k, na}, score}], thr: [num, den], sthr, outs: [[i, ...], ...], nt}`:
+//! lattice boxes (centre (x/2, y/2), width w/2, height h/2, angle k * pi/2, or None when na = 1), scores in
+//! hundredths (-1 = None), nms threshold num/den, score threshold in hundredths (-1 = None), and `outs` = every list
+//! of 1-based input indices the specification admits (a single list unless ranks tie).
+//!
+//! The real `similari::utils::nms::nms` is called on the list in several input orders (identity, reversed, rotated,
+//! seeded shuffle); each returned reference is identified by its position in the input slice and mapped back to the
+//! case's index; the list must be a member of `outs`.  Then nms is applied to its own output (same thresholds) and
+//! must return it unchanged (idempotence).  No property logic here: the expected lists come from TLC.
 use crate::common::*;
+use rand::seq::SliceRandom;
+use rand::SeedableRng;
+use serde_json::{json, Value};
+use similari::utils::bbox::Universal2DBox;
+use similari::utils::nms::nms;
 
-pub fn main(_opts: &Opts) {
-    eprintln!("vh: engine not built yet");
-    std::process::exit(2);
+type Det = (Universal2DBox, Option<f32>);
+
+fn mk_det(d: &Value) -> Det {
+    let b = jget(d, "box");
+    let (x, y, w, h, k) = (jint(b, "x"), jint(b, "y"), jint(b, "w"), jint(b, "h"), jint(b, "k"));
+    let na = b.get("na").map(|v| ji(v) == 1).unwrap_or(false);
+    let width = w as f32 / 2.0;
+    let height = h as f32 / 2.0;
+    // (xc, yc, angle, aspect, height): aspect = width / height; for h = 0 the box is invalid whatever the aspect is
+    let aspect = if h != 0 { width / height } else { width };
+    let angle = if na { None } else { Some(k as f32 * std::f32::consts::FRAC_PI_2) };
+    let s = jint(d, "score");
+    (
+        Universal2DBox::new(x as f32 / 2.0, y as f32 / 2.0, angle, aspect, height),
+        if s < 0 { None } else { Some(s as f32 / 100.0) },
+    )
+}
+
+/// position of the returned reference in the input slice
+fn index_of(dets: &[Det], r: &Universal2DBox) -> Option<usize> {
+    dets.iter().position(|d| std::ptr::eq(&d.0, r))
+}
+
+fn call(dets: &[Det], thr: f32, sthr: Option<f32>) -> Result<Vec<Option<usize>>, ()> {
+    std::panic::catch_unwind(std::panic::AssertUnwindSafe(|| {
+        nms(dets, thr, sthr).into_iter().map(|r| index_of(dets, r)).collect::<Vec<_>>()
+    }))
+    .map_err(|_| ())
+}
+
+pub fn main(opts: &Opts) {
+    let mut rep = Report::new();
+    let seed = opts.u64("seed", 1);
+    let nperm = opts.usize("perms", 4);
+    // liveness demonstration only: scales the nms threshold handed to the implementation
+    let perturb = opts.f64("perturb-thr", 1.0) as f32;
+    for_each_case(opts, |idx, c| {
+        rep.cases += 1;
+        rep.sample(&c);
+        let jd = jarr(&c, "dets");
+        let n = jd.len();
+        let thr_v = jarr(&c, "thr");
+        let thr = ji(&thr_v[0]) as f32 / ji(&thr_v[1]) as f32 * perturb;
+        let st = jint(&c, "sthr");
+        let sthr = if st < 0 { None } else { Some(st as f32 / 100.0) };
+        let outs: Vec<Vec<usize>> =
+            jarr(&c, "outs").iter().map(|l| l.as_array().unwrap().iter().map(|i| ji(i) as usize).collect()).collect();
+        if jint(&c, "nt") == 1 {
+            rep.nontrivial += 1;
+        }
+        if outs.len() > 1 {
+            rep.count("rank_tie_cases", 1);
+        }
+        rep.count(&format!("len{}", if n > 4 { ">4".to_string() } else { n.to_string() }), 1);
+        // input orders: perm[p] = case index (0-based) placed at position p
+        let id: Vec<usize> = (0..n).collect();
+        let mut perms: Vec<Vec<usize>> = vec![id.clone()];
+        if n >= 2 && nperm >= 2 {
+            perms.push(id.iter().rev().cloned().collect());
+        }
+        if n >= 3 && nperm >= 3 {
+            let mut r = id.clone();
+            r.rotate_left(1);
+            perms.push(r);
+        }
+        if n >= 4 && nperm >= 4 {
+            let mut rng = rand::rngs::StdRng::seed_from_u64(seed ^ (idx as u64).wrapping_mul(0x9E37_79B9_7F4A_7C15));
+            let mut r = id.clone();
+            r.shuffle(&mut rng);
+            perms.push(r);
+        }
+        for (pi, perm) in perms.iter().enumerate() {
+            rep.steps += 1;
+            let dets: Vec<Det> = perm.iter().map(|&i| mk_det(&jd[i])).collect();
+            let got = match call(&dets, thr, sthr) {
+                Ok(g) => g,
+                Err(_) => {
+                    rep.mismatch("nms:panic", idx, &c, json!({"perm": perm}));
+                    return;
+                }
+            };
+            if got.iter().any(|g| g.is_none()) {
+                rep.mismatch("nms:result is not a reference into the input", idx, &c, json!({"perm": perm}));
+                return;
+            }
+            // back to 1-based case indices
+            let list: Vec<usize> = got.iter().map(|g| perm[g.unwrap()] + 1).collect();
+            if !outs.iter().any(|o| *o == list) {
+                let mut a = list.clone();
+                a.sort();
+                let same_set = outs.iter().any(|o| {
+                    let mut b = o.clone();
+                    b.sort();
+                    a == b
+                });
+                let sig = if same_set {
+                    "nms:order"
+                } else if outs.iter().any(|o| o.len() < list.len()) {
+                    "nms:box kept that the specification drops"
+                } else if outs.iter().any(|o| o.len() > list.len()) {
+                    "nms:box dropped that the specification keeps"
+                } else {
+                    "nms:different set"
+                };
+                rep.mismatch(sig, idx, &c, json!({"perm": perm, "impl": list, "spec": outs}));
+                return;
+            }
+            // idempotence: nms of its own output, identity expected
+            if pi == 0 {
+                let d2: Vec<Det> = got.iter().map(|g| dets[g.unwrap()].clone()).collect();
+                match call(&d2, thr, sthr) {
+                    Ok(g2) => {
+                        let want: Vec<Option<usize>> = (0..d2.len()).map(Some).collect();
+                        if g2 != want {
+                            rep.mismatch("nms:not idempotent", idx, &c, json!({"first": list, "second": g2}));
+                            return;
+                        }
+                    }
+                    Err(_) => {
+                        rep.mismatch("nms:panic (second application)", idx, &c, json!({"first": list}));
+                        return;
+                    }
+                }
+            }
+        }
+    });
+    rep.finish();
 }
